@@ -4,5 +4,6 @@ const (
 	c12N              = 4
 	c12Announcers     = 1
 	c12LateN          = 3
+	c12HopLimit       = false // also run every composition with max_hops = N-1
 	c12LateAnnouncers = 3
 )
